@@ -23,7 +23,9 @@ RulePool == <<
   Call(S("f"), A),
   Call(S("g"), A),
   Bin("add", Call(S("f"), A), Call(S("f"), Sym(S("s")))),
-  If(Bin("gt", A, Val(I(1))), Call(S("g"), Val(I(9))), Val(St("small"))) >>
+  If(Bin("gt", A, Val(I(1))), Call(S("g"), Val(I(9))), Val(St("small"))),
+  Bin("sub", Val(VDur(DurMaxNs)), Val(VDur(DurMinNs))),          \* out of range (a panic here would lose every outcome)
+  Bin("add", Val(VInt(I128Max)), A) >>
 
 Inputs == << VMap(<< <<S("a"), I(1)>> >>), VMap(<< <<S("a"), I(2)>>, <<S("zz"), I(5)>> >>), I(7), VNone >>
 
